@@ -60,6 +60,9 @@ def attr_value(name, v):
         return "url(#%s)" % v
     if name == "stroke-dasharray":
         return ",".join(str(x) for x in v) if v else "none"
+    if name in ("x1", "y1", "x2", "y2", "cx", "cy", "r", "fx", "fy", "fr") and isinstance(v, list):
+        n, d, pct = v
+        return (num(n / d) + "%") if pct else num(n / d)
     if isinstance(v, list):
         return " ".join(str(x) for x in v)
     return str(v)
@@ -69,6 +72,8 @@ def attrs_xml(at, extra=()):
     parts = list(extra)
     style = []
     for name, v, via in at:
+        if name == "fillref":      # bookkeeping of the abstract document, not an SVG attribute
+            continue
         s = attr_value(name, v)
         if via:
             style.append("%s:%s" % (name, s))
@@ -172,6 +177,7 @@ def concretise(doc, flags=()):
 
 
 # --------------------------------------------------------------------------- projection
+_URL = re.compile(r"^url\(#([^)]*)\)$")
 _TOK = re.compile(r"([MLCQAZmlcqaz])|([-+]?(?:\d+\.?\d*|\.\d+)(?:[eE][-+]?\d+)?)")
 
 
@@ -312,12 +318,100 @@ def local(tag):
     return etree.QName(tag).localname if isinstance(tag, str) else "#" + str(tag)
 
 
-def project(svg_text):
-    """picosvg output text -> {"layers": [...], "notes": [...]} for TraceRender."""
+def _inv(m):
+    a, b, c, d, e, f = m
+    det = a * d - b * c
+    if det == 0:
+        return None
+    ia, ib, ic, id_ = d / det, -b / det, -c / det, a / det
+    return (ia, ib, ic, id_, -(ia * e + ic * f), -(ib * e + id_ * f))
+
+
+def _mul(m, n):
+    return (m[0] * n[0] + m[2] * n[1], m[1] * n[0] + m[3] * n[1], m[0] * n[2] + m[2] * n[3],
+            m[1] * n[2] + m[3] * n[3], m[0] * n[4] + m[2] * n[5] + m[4], m[1] * n[4] + m[3] * n[5] + m[5])
+
+
+def grad_info(gel, bbox, vb, dense):
+    """output gradient element -> (paint string, grid of floor(256 t) / floor(256 t^2) or [])"""
+    tag = local(gel.tag)
+    a = gel.attrib
+    stops = []
+    for st in gel:
+        if isinstance(st.tag, str) and local(st.tag) == "stop":
+            stops.append("%d=%s" % (int(round(float(st.attrib.get("offset", "0").rstrip("%")) *
+                                              (1 if st.attrib.get("offset", "0").endswith("%") else 100))),
+                                    st.attrib.get("stop-color", "black")))
+    if not stops:
+        return None, []
+    bb = a.get("gradientUnits", "objectBoundingBox") == "objectBoundingBox"
+
+    def num_(name, dflt_pct, horiz=True):
+        v = a.get(name)
+        if v is None:
+            v = "%g%%" % dflt_pct
+        if v.endswith("%"):
+            frac = float(v[:-1]) / 100
+            return frac if bb else frac * (vb[2] if horiz else vb[3])
+        return float(v)
+
+    m = (1, 0, 0, 1, 0, 0)
+    if bb:
+        m = (bbox[2] - bbox[0], 0, 0, bbox[3] - bbox[1], bbox[0], bbox[1])
+    if a.get("gradientTransform"):
+        t6 = _tf6(a["gradientTransform"])
+        if len(t6) != 6:
+            return "grad:unparsed-transform", []
+        m = _mul(m, tuple(t6))
+    inv = _inv(m)
+    spread = a.get("spreadMethod", "pad")
+    if tag == "linearGradient":
+        kind = "linear"
+        x1, y1, x2, y2 = num_("x1", 0), num_("y1", 0, False), num_("x2", 100), num_("y2", 0, False)
+    else:
+        cx, cy, r = num_("cx", 50), num_("cy", 50, False), num_("r", 50)
+        fx = float(a["fx"]) if "fx" in a and not a["fx"].endswith("%") else (num_("fx", 50) if "fx" in a else cx)
+        fy = float(a["fy"]) if "fy" in a and not a["fy"].endswith("%") else (num_("fy", 50, False) if "fy" in a else cy)
+        fr = float(a.get("fr", "0").rstrip("%"))
+        kind = "radial" if (abs(fx - cx) < 1e-9 and abs(fy - cy) < 1e-9 and fr == 0) else "radialf"
+    paint = "grad:%s:%s:%s" % (kind, spread, ",".join(stops))
+    grid = []
+    if inv is None:
+        return paint, []
+    if dense:
+        pts = [((4 * i + 2) / 8, (4 * j + 2) / 8) for i in range(2 * (vb[0] - 2), 2 * (vb[0] + vb[2] + 2))
+               for j in range(2 * (vb[1] - 2), 2 * (vb[1] + vb[3] + 2))]
+    else:
+        pts = [((8 * i + 2) / 8, (8 * j + 6) / 8) for i in range(vb[0] - 2, vb[0] + vb[2] + 2)
+               for j in range(vb[1] - 2, vb[1] + vb[3] + 2)]
+    for (px, py) in pts:
+        qx = inv[0] * px + inv[2] * py + inv[4]
+        qy = inv[1] * px + inv[3] * py + inv[5]
+        val = None
+        if kind == "linear":
+            vx, vy = x2 - x1, y2 - y1
+            vv = vx * vx + vy * vy
+            if vv > 0:
+                val = ((qx - x1) * vx + (qy - y1) * vy) / vv
+        elif kind == "radial" and r > 0:
+            val = ((qx - cx) ** 2 + (qy - cy) ** 2) / (r * r)
+        if val is None or abs(val) > 3000:
+            grid.append(-99999)
+        else:
+            grid.append(int(math.floor(val * 256 + 1e-7)))
+    return paint, grid
+
+
+def project(svg_text, vb=(0, 0, 16, 16), dense=False):
+    """picosvg output text -> {"layers": [...], "notes": [...]} for TraceRender / TraceGrad."""
     root = etree.fromstring(svg_text.encode("utf-8"))
     layers = []
     notes = []
     gid = [0]
+    grads = {}
+    for el in root.iter():
+        if isinstance(el.tag, str) and local(el.tag) in ("linearGradient", "radialGradient") and el.attrib.get("id"):
+            grads[el.attrib["id"]] = el
 
     def walk(el, grp):
         for ch in el:
@@ -354,13 +448,24 @@ def project(svg_text):
                     fill = "unflattened:" + fill
                 xs = [v for pl in polys for v in pl[0::2]] or [0]
                 ys = [v for pl in polys for v in pl[1::2]] or [0]
+                tg = []
+                mu = _URL.match(fill.strip())
+                if mu:
+                    gel = grads.get(mu.group(1))
+                    if gel is None:
+                        fill = "dangling:" + fill
+                    else:
+                        fbb = [min(xs) / U64, min(ys) / U64, max(xs) / U64, max(ys) / U64]
+                        fill, tg = grad_info(gel, fbb, vb, dense)
+                        if fill is None:      # a gradient without stops paints nothing
+                            continue
                 layers.append({"polys": polys, "rule": ch.attrib.get("fill-rule", "nonzero"),
-                               "paint": fill, "e": e, "grp": grp,
+                               "paint": fill, "e": e, "grp": grp, "tg": tg,
                                "bb": [min(xs), min(ys), max(xs), max(ys)]})
             else:
                 notes.append("unexpected element <%s> in output" % t)
                 layers.append({"polys": [], "rule": "nonzero", "paint": "unexpected:" + t, "e": 0,
-                               "grp": grp, "bb": [0, 0, 0, 0]})
+                               "grp": grp, "bb": [0, 0, 0, 0], "tg": []})
 
     walk(root, [])
     return {"layers": layers, "notes": notes}
@@ -400,8 +505,6 @@ def generate_docs(focus, n, seedval, wd, max_nodes=6, max_depth=4, cfg_extra="")
 
 
 # ------------------------------------------------------------- structural projection (C01/C08)
-_URL = re.compile(r"^url\(#([^)]*)\)$")
-
 
 def structure(svg_text):
     """output text -> flat pre-order node list with raw lexemes (for PicoGrammar.tla)."""
